@@ -172,31 +172,62 @@ class Flow:
     def origin_text(self, expr, depth=8):
         return sorted({U(e) if isinstance(e, ast.AST) else repr(e) for e in self.expand(expr, depth)})
 
+    _MUTATORS = {"append", "extend", "insert", "add", "update", "setdefault", "pop", "popitem", "remove", "discard", "clear", "sort", "reverse"}
+
+    def _mutated_container(self, name, value):
+        """`name` was bound to a fresh container and the function edits that container in place (append, item store, ...): the
+        name then does not stand for its defining expression any more."""
+        fresh = isinstance(value, (ast.List, ast.Dict, ast.Set, ast.ListComp, ast.DictComp, ast.SetComp)) or (
+            isinstance(value, ast.Call) and isinstance(value.func, ast.Name) and value.func.id in ("list", "dict", "set", "defaultdict", "OrderedDict"))
+        if not fresh:
+            return False
+        cache = self.__dict__.setdefault("_mut_cache", {})
+        if name not in cache:
+            hit = False
+            for n in ast.walk(self.func):
+                if isinstance(n, ast.Call) and isinstance(n.func, ast.Attribute) and n.func.attr in self._MUTATORS \
+                        and isinstance(n.func.value, ast.Name) and n.func.value.id == name:
+                    hit = True
+                elif isinstance(n, (ast.Subscript, ast.Attribute)) and isinstance(n.ctx, (ast.Store, ast.Del)) \
+                        and isinstance(n.value, ast.Name) and n.value.id == name:
+                    hit = True
+                elif isinstance(n, ast.AugAssign) and isinstance(n.target, ast.Name) and n.target.id == name:
+                    hit = True
+            cache[name] = hit
+        return cache[name]
+
     def subst(self, expr, depth=6):
         """Copy of `expr` with every local name that has exactly one plain reaching definition
         replaced by (the substitution of) that definition's right-hand side."""
         flow = self
 
-        def go(node, depth):
+        def go(node, depth, bound=frozenset()):
             if isinstance(node, list):
-                return [go(x, depth) for x in node]
+                return [go(x, depth, bound) for x in node]
             if not isinstance(node, ast.AST):
                 return node
+            if isinstance(node, (ast.ListComp, ast.SetComp, ast.GeneratorExp, ast.DictComp)):
+                # names bound by the comprehension itself are its own
+                own = {t for g in node.generators for t in _target_names(g.target)}
+                bound = bound | own
+            if isinstance(node, ast.Lambda):
+                bound = bound | {a.arg for a in node.args.args}
             if (
                 isinstance(node, ast.Name)
                 and depth > 0
                 and isinstance(node.ctx, ast.Load)
+                and node.id not in bound
                 and flow.is_local(node.id)
             ):
                 try:
                     ds = flow.reaching(node, node.id)
                 except KeyError:
                     ds = []
-                if len(ds) == 1 and ds[0].kind == "assign" and ds[0].value is not None:
+                if len(ds) == 1 and ds[0].kind == "assign" and ds[0].value is not None and not flow._mutated_container(node.id, ds[0].value):
                     return go(ds[0].value, depth - 1)
             new = type(node)()
             for f in node._fields:
-                setattr(new, f, go(getattr(node, f, None), depth))
+                setattr(new, f, go(getattr(node, f, None), depth, bound))
             for a in node._attributes:
                 if hasattr(node, a):
                     setattr(new, a, getattr(node, a))
